@@ -57,6 +57,12 @@ pub fn drop_privileges() -> Result<(), String> {
 /// Run `f` in a forked, unprivileged child; its JSON result is returned. A child that dies is an Err with
 /// the raw wait status; a panic inside `f` is an Err with the message.
 pub fn run(f: impl FnOnce() -> Value) -> Result<Value, String> {
+    run_opts(f, true, false)
+}
+
+/// As `run`; `drop_privs`: give up privileges as described above; `close_stdin`: the child has no descriptor 0
+/// (a program started with `<&-`, or daemonised by hand), so the next descriptor it opens is number 0.
+pub fn run_opts(f: impl FnOnce() -> Value, drop_privs: bool, close_stdin: bool) -> Result<Value, String> {
     use std::io::{Read, Write};
     use std::os::unix::io::FromRawFd;
     let _ = std::io::stdout().flush();
@@ -73,7 +79,10 @@ pub fn run(f: impl FnOnce() -> Value) -> Result<Value, String> {
         if pid == 0 {
             libc::prctl(libc::PR_SET_PDEATHSIG, libc::SIGKILL);
             libc::close(fds[0]);
-            let v = match drop_privileges() {
+            if close_stdin {
+                libc::close(0);
+            }
+            let v = match if drop_privs { drop_privileges() } else { Ok(()) } {
                 Err(e) => json!({"__error": format!("cannot enter the least-privilege environment: {e}")}),
                 Ok(()) => match std::panic::catch_unwind(std::panic::AssertUnwindSafe(f)) {
                     Ok(v) => v,
